@@ -58,8 +58,9 @@ var c11Lits = map[string]datamodel.Node{
 	"0": nInt(0), "1": nInt(1), "2": nInt(2), "1.0": nFloat(1.0), "1.5": nFloat(1.5), `"a"`: nStr("a"), "true": nBool(true), "null": nNull(), "[1]": nList(nInt(1)),
 	"{x:1,y:2}": nMap(kv{"x", nInt(1)}, kv{"y", nInt(2)}), "[{y:2,x:1}]": nList(nMap(kv{"y", nInt(2)}, kv{"x", nInt(1)})),
 	"link(cbor,h0)": nLink(0),
+	"0.3": nFloat(0.3), "10": nInt(10), "8": nInt(8), "[0..9]": nList(nInt(0), nInt(1), nInt(2), nInt(3), nInt(4), nInt(5), nInt(6), nInt(7), nInt(8), nInt(9)),
 }
-var c11LitNames = []string{"0", "1", "2", "1.0", "1.5", `"a"`, "true", "null", "[1]", "{x:1,y:2}", "[{y:2,x:1}]", "link(cbor,h0)"}
+var c11LitNames = []string{"0", "1", "2", "1.0", "1.5", `"a"`, "true", "null", "[1]", "{x:1,y:2}", "[{y:2,x:1}]", "link(cbor,h0)", "10", "8", "[0..9]", "0.3"}
 
 // nLinkAs is a link with the digest of cidPool[i] under another codec or CID version: a different link.
 func nLinkAs(i int, codec uint64, v0 bool) datamodel.Node {
@@ -255,6 +256,32 @@ func sign64(x int64) int {
 
 var selMemo sync.Map
 
+// c11RefSels: selectors whose numerals are written with leading zeros get their meaning from the reference
+// (decimal), not from the parser under test: .l[010] is element 10, .l[:010] the first ten, .l[-011:] the last eleven.
+var c11RefSels = map[string][]refmodel.Seg{
+	".l[010]":   {{Kind: "field", Field: "l"}, {Kind: "index", Index: 10, Spell: "010"}},
+	".l[:010]":  {{Kind: "field", Field: "l"}, {Kind: "slice", Hi: ip(10), Spell: ":010"}},
+	".l[-011:]": {{Kind: "field", Field: "l"}, {Kind: "slice", Lo: ip(-11), Spell: "-011:"}},
+}
+
+var errRefSel = fmt.Errorf("reference: the selector does not resolve")
+
+// c11Select resolves a selector on data: through the reference for the selectors of c11RefSels, else with the real Select.
+func c11Select(sel string, data datamodel.Node) (datamodel.Node, error) {
+	if segs, ok := c11RefSels[sel]; ok {
+		r := refmodel.Resolve(segs, data)
+		switch r.Status {
+		case refmodel.SelValue:
+			return r.Node, nil
+		case refmodel.SelNoValue:
+			return nil, nil
+		default:
+			return nil, errRefSel
+		}
+	}
+	return parsedSel(sel).Select(data)
+}
+
 func parsedSel(s string) selector.Selector {
 	if strings.Contains(s, "-") {
 		// selectors with negative bounds are parsed afresh for every use: the reference must not share
@@ -308,7 +335,7 @@ func classical(s St, data datamodel.Node) tri {
 		}
 		return res
 	case "all", "any":
-		v, err := parsedSel(s.Sel).Select(data)
+		v, err := c11Select(s.Sel, data)
 		if err != nil || v == nil || v.Kind() != datamodel.Kind_List {
 			return triDC
 		}
@@ -329,7 +356,7 @@ func classical(s St, data datamodel.Node) tri {
 		}
 		return res
 	}
-	v, err := parsedSel(s.Sel).Select(data)
+	v, err := c11Select(s.Sel, data)
 	if err != nil || v == nil {
 		return triDC
 	}
@@ -369,6 +396,8 @@ var c11AVals = []namedNode{
 	// maps are unordered: the same entries inserted in either order, as a value and inside a list
 	{"{x:1,y:2}", nMap(kv{"x", nInt(1)}, kv{"y", nInt(2)})}, {"{y:2,x:1}", nMap(kv{"y", nInt(2)}, kv{"x", nInt(1)})}, {"{x:1,y:3}", nMap(kv{"x", nInt(1)}, kv{"y", nInt(3)})},
 	{"[{x:1,y:2}]", nList(nMap(kv{"x", nInt(1)}, kv{"y", nInt(2)}))},
+	// floats one unit in the last place (and four) away from a literal: == is exact
+	{"0.1+0.2", nFloat(0.1 + 0.2)}, {"nextafter(1.5)", nFloat(math.Nextafter(1.5, 2))}, {"1.5+4ulp", nFloat(1.5 + 4*(math.Nextafter(1.5, 2)-1.5))}, {"nextbefore(1.0)", nFloat(math.Nextafter(1.0, 0))},
 	// strings that are not UTF-8: a byte is a byte (0xff is not 0xfe, neither is U+FFFD)
 	{`"a"+0xfe`, nStr("a\xfe")}, {`"a"+0xff`, nStr("a\xff")}, {`"a"+U+FFFD`, nStr("a\uFFFD")},
 	// links: equal only if the whole CID is (version, codec and multihash)
@@ -379,6 +408,7 @@ var c11LVals = []namedNode{
 	{"-", nil}, {"[]", nList()}, {"[1]", nList(nInt(1))}, {"[2]", nList(nInt(2))}, {"[1,2]", nList(nInt(1), nInt(2))}, {"[2,1]", nList(nInt(2), nInt(1))},
 	{"[1,{x:1}]", nList(nInt(1), nMap(kv{"x", nInt(1)}))}, {"[{x:1},1]", nList(nMap(kv{"x", nInt(1)}), nInt(1))}, {"[{x:1},{x:2}]", nList(nMap(kv{"x", nInt(1)}), nMap(kv{"x", nInt(2)}))},
 	{"5", nInt(5)},
+	{"[0..11]", nList(nInt(0), nInt(1), nInt(2), nInt(3), nInt(4), nInt(5), nInt(6), nInt(7), nInt(8), nInt(9), nInt(10), nInt(11))},
 }
 
 func c11Data(aNames, bNames, lNames []string) []c11Datum {
@@ -478,7 +508,7 @@ func (c *c11Case) Weight() int {
 // a wildcard followed by a long literal that keeps almost matching inside a long run
 var c11LongPat = "*" + strings.Repeat("0", 40) + "7"
 
-var c11Sels = []string{".a", ".b", ".m?", ".m", ".l", ".", ".l[-1:]"}
+var c11Sels = []string{".a", ".b", ".m?", ".m", ".l", ".", ".l[-1:]", ".l[010]", ".l[:010]", ".l[-011:]"}
 
 func c11Atoms() []St {
 	var r []St
@@ -498,7 +528,7 @@ func c11Atoms() []St {
 }
 
 func c11AtomSub() *engine.Sub {
-	data := c11Data(nil, []string{"-", `"a"`, "1"}, []string{"-", "[1,2]", "[1]", "[2,1]", "[]"})
+	data := c11Data(nil, []string{"-", `"a"`, "1"}, []string{"-", "[1,2]", "[1]", "[2,1]", "[]", "[0..11]"})
 	byName := map[string]c11Datum{}
 	for _, d := range data {
 		byName[d.Name] = d
@@ -506,7 +536,7 @@ func c11AtomSub() *engine.Sub {
 	return &engine.Sub{
 		Name:   "atoms-truth",
 		Repeat: true,
-		Rule:   "every comparison atom (5 operators x 7 selectors (one with a negative slice bound) x 12 literals) and like atom (7 selectors x 10 patterns, three of them with a byte that is not UTF-8 / U+FFFD) as a top-level statement, on every datum {a in 33 values, b in 3, l in 5 (lists of several lengths, so that one parsed selector meets them all)}: if the selector resolves, Match = PartialMatch = classical truth (same-kind numbers only; an ordering statement with a NaN operand is false; infinite operands of ordering operators and == on NaN are don't-care); if required data is missing Match=false and PartialMatch=true; if optional data is missing both are true; non-trivial = selector resolves",
+		Rule:   "every comparison atom (5 operators x 10 selectors (one with a negative slice bound, three with numerals written with leading zeros, whose meaning - decimal - comes from the reference) x 16 literals) and like atom (7 selectors x 10 patterns, three of them with a byte that is not UTF-8 / U+FFFD) as a top-level statement, on every datum {a in 37 values, b in 3, l in 6 (lists of several lengths up to 12, so that one parsed selector meets them all)}: if the selector resolves, Match = PartialMatch = classical truth (same-kind numbers only; an ordering statement with a NaN operand is false; infinite operands of ordering operators and == on NaN are don't-care); if required data is missing Match=false and PartialMatch=true; if optional data is missing both are true; non-trivial = selector resolves",
 		Bound:  func(string) string { return fmt.Sprintf("%d atoms x %d data", len(c11Atoms()), len(data)) },
 		Gen: func(tier string, emit func(any) bool) {
 			for _, a := range c11Atoms() {
@@ -528,7 +558,7 @@ func c11AtomSub() *engine.Sub {
 				ctx.Trans(1)
 				m, pm := mp(p, d.Node)
 				rc := &c11Case{S: cs.S, Data: d.Name}
-				v, err := parsedSel(cs.S.Sel).Select(d.Node)
+				v, err := c11Select(cs.S.Sel, d.Node)
 				switch {
 				case err != nil:
 					ctx.Outcome("required-missing")
